@@ -917,6 +917,7 @@ def gen_merge16(rng):
     for _ in range(nfiles):
         gen = gen_docs.DocGen(rng, sets=rng.random() < 0.1,
                               anchors=use_anchors,
+                              special=rng.random() < 0.25,
                               nonascii=rng.random() < 0.15,
                               multiline=rng.random() < 0.4,
                               max_nodes=rng.choice([4, 8, 12]))
